@@ -140,8 +140,8 @@ func (m *Merger) mergeTables(colDiff *diff.ColDiff, mergeChan chan<- *Merge, err
 	for _, obj := range merges {
 		if obj.Base != nil {
 			noChanges := true
-			for _, b := range obj.Others {
-				if !bytes.Equal(b, obj.Base) {
+			for i, b := range obj.Others {
+				if !bytes.Equal(b, obj.Base) || !colDiff.SameLayoutAsBase(i) {
 					noChanges = false
 					break
 				}
